@@ -5,7 +5,7 @@ Abstract state of one request:  K  id kind (Existing / ToBeRenamed / NewlyGenera
                                 inv invalidated flag; cu client state updated; ne "payload may be non-empty"
                                 rc / ro  what the session knows about the store record under its current / old id: Y, N, ?
 
-Operations are the public `Session` methods; each is executed by the abstract interpreter (pvx/absint.py) on its MIR body,
+Operations are the public `Session` methods and the client-state mutators; each is executed by the abstract interpreter (pvx/absint.py) on its MIR body,
 descending into the crate's own helpers (insert -> insert_raw -> force_load_mut -> force_load, finalize -> sync). The only
 hand-written semantics are the contract of the storage backend (the `SessionStorageBackend` trait docs):
     create(x): DuplicateId if a record exists        update / update_ttl(x): UnknownId if none exists
@@ -22,6 +22,8 @@ Violations (each keyed by the cell it happens in; the shortest history is the wi
     record-survives the session is invalidated at the end of the request but a record it knows of is still in the store
     state-lost      the request ends with a (possibly non-empty) clean state in memory and no record under the cookie's id
     orphan-record   the id is advanced while a record is still stored under the id that is dropped
+    cookie          finalize (interpreted to its return value) answers None / a session cookie / a removal cookie inconsistently with the
+                    end state: invalidated + client had a cookie => removal cookie; alive + (record exists or client had a cookie) => session cookie
 """
 from collections import deque
 from ..facts import callee, op_place, strip_generics
@@ -129,6 +131,10 @@ class SessionSem(Semantics):
             if tag in ('opt:Some', 'opt:None'):
                 return [tag[4:]]
             ty = self.switched_type(body, bb, term)
+            if '&str' in ty or 'SameSite' in ty:
+                # cookie attributes taken from the configuration: no effect on the model, one edge is enough
+                names = [n for n, _ in term['ts']] + list(term.get('rest', []))
+                return ['None'] if 'None' in names else names[:1]
             if 'ServerState' in ty and 'Option<' in ty:
                 return ['None'] if env['S'] == 'NotLoaded' else ['Some']
             if 'SessionRecord' in ty:
@@ -171,10 +177,20 @@ class SessionSem(Semantics):
                         pl = op_place(rv['ops'][0])
                         if pl is not None and not pl.get('p'):
                             inner = path.tags.get((body.id, pl['l']))
-                    self._pending = (k, inner if inner and inner.startswith('ss:') else 'opt:' + rv['var'])
+                    if inner and inner.startswith('cookie:'):
+                        self._pending = (k, 'some:' + inner)
+                    else:
+                        self._pending = (k, inner if inner and inner.startswith('ss:') else 'opt:' + rv['var'])
                 elif adt == RES and lhs['l'] == 0:
                     env['reterr'] = rv['var'] == 'Err'
+                    if rv['var'] == 'Ok' and rv['ops']:
+                        pl = op_place(rv['ops'][0])
+                        env['ret'] = (path.tags.get((body.id, pl['l'])) if pl is not None and not pl.get('p') else None) or '?'
+                elif adt == CS and rv['var'] == 'Updated':
+                    env['cu'] = True
             else:
+                if adt == CS and rv['var'] == 'Updated':
+                    env['cu'] = True
                 if adt == RES and lhs['l'] == 0:
                     env['reterr'] = rv['var'] == 'Err'
         # stores into the session's fields
@@ -194,6 +210,21 @@ class SessionSem(Semantics):
                     self.unknown.append('write of Session.id with unknown variant at %s' % body.loc(bb, st))
 
     _pending = None
+
+    def bool_switch(self, interp, path, body, bb, term):
+        pl = op_place(term['d'])
+        if pl is None:
+            return None
+        k = (body.id, 'cfgbool', bb)
+        if k not in self._roles:
+            v = None
+            for st in body.stmts(bb):
+                if st.get('lhs') == {'l': pl['l']} and st['rv']['k'] == 'use' and op_place(st['rv']['op']) is not None:
+                    pp = op_place(st['rv']['op']).get('p', [])
+                    if pp and pp[-1] in ('f:secure', 'f:http_only'):
+                        v = False
+            self._roles[k] = v
+        return self._roles[k]
 
     def _id_payload(self, interp, path, body, rv):
         """for CurrentSessionId aggregates: where does the (new) id come from: 'new_id', 'old_id', 'random', '?'"""
@@ -419,7 +450,7 @@ class SessionSem(Semantics):
             clear_dest()
             if m == 'new' and dk is not None:
                 path.tags[dk] = 'fresh'
-            elif m == 'insert':
+            elif m == 'insert' and not env.get('client_op'):
                 env['ne'] = True
                 env['touched'] = True
             elif m == 'is_empty' and env.get('ne') is False and dk is not None:
@@ -432,6 +463,17 @@ class SessionSem(Semantics):
                 if v in ('NeverSkip', 'SkipIfEmpty'):
                     val = (env['neverskip'] == (v == 'NeverSkip'))
                     path.memo[dk] = val if short.endswith('eq') else not val
+            return [('next', path)]
+        if short.startswith('biscotti::') or short in ('core::convert::Into::into', 'core::convert::From::from'):
+            t0 = arg_tag(0)
+            clear_dest()
+            if dk is not None:
+                if short.endswith('RemovalCookie::new'):
+                    path.tags[dk] = 'cookie:removal'
+                elif short.endswith('ResponseCookie::new'):
+                    path.tags[dk] = 'cookie:response'
+                elif t0 and t0.startswith('cookie:'):
+                    path.tags[dk] = t0
             return [('next', path)]
         if short == 'pavex_session::id::SessionId::random':
             clear_dest()
@@ -519,8 +561,8 @@ class TaggingInterp(Interp):
 
 
 INIT_ENV = dict(K=None, S=None, inv=False, cu=False, ne=False, rc='N', ro='N', allow=False, neverskip=True,
-                last='Ok', reterr=False, orphan=None, touched=False, loaded='None')
-STATE_KEYS = ('K', 'S', 'inv', 'cu', 'ne', 'rc', 'ro', 'allow', 'neverskip')
+                last='Ok', reterr=False, orphan=None, touched=False, loaded='None', client_op=False, had=False, ret=None)
+STATE_KEYS = ('K', 'S', 'inv', 'cu', 'ne', 'rc', 'ro', 'allow', 'neverskip', 'had')
 
 
 def _state(env):
@@ -533,9 +575,9 @@ def explore(ctx, ops, terminal):
     inits = []
     for allow in (False, True):
         for neverskip in (True, False):
-            e = dict(INIT_ENV, K='NewlyGenerated', S='DoesNotExist', rc='N', allow=allow, neverskip=neverskip)
+            e = dict(INIT_ENV, K='NewlyGenerated', S='DoesNotExist', rc='N', allow=allow, neverskip=neverskip, had=False)
             inits.append((e, 'request without a session cookie'))
-            e = dict(INIT_ENV, K='Existing', S='NotLoaded', rc='?', ne=True, allow=allow, neverskip=neverskip)
+            e = dict(INIT_ENV, K='Existing', S='NotLoaded', rc='?', ne=True, allow=allow, neverskip=neverskip, had=True)
             inits.append((e, 'request with a session cookie'))
     seen = {}
     work = deque()
@@ -566,7 +608,7 @@ def explore(ctx, ops, terminal):
     def run_op(e0, opname, body):
         nonlocal n_runs
         n_runs += 1
-        env = dict(e0, last='Ok', reterr=False, orphan=None, touched=False, loaded='None')
+        env = dict(e0, last='Ok', reterr=False, orphan=None, touched=False, loaded='None', client_op=opname.startswith('client.'), ret=None)
         return interp.run(body, env)
 
     while work:
@@ -605,6 +647,17 @@ def explore(ctx, ops, terminal):
                         report('state-lost', cell, e0, opname, 'the request ends with a clean in-memory state but there is no record under the id the cookie carries')
                     if not env['inv'] and env['S'] in ('Changed', 'MarkedForDeletion'):
                         report('sync-panics', 'finalize-after-sync|' + env['S'], e0, opname, 'finalize() reaches unreachable!(): the state is still %s after sync' % env['S'])
+                    ret = env.get('ret')
+                    if ret not in ('opt:None', 'some:cookie:removal', 'some:cookie:response'):
+                        sem.unknown.append('finalize returns a value the interpreter could not classify (%s)' % ret)
+                    elif env['inv'] and e0['had'] and ret != 'some:cookie:removal':
+                        report('cookie', 'no-removal-cookie|' + cell, e0, opname, 'the session is invalidated and the client holds a session cookie, but finalize returns %s instead of a removal cookie' % ret)
+                    elif not env['inv'] and ret == 'some:cookie:removal':
+                        report('cookie', 'removal-cookie-for-a-live-session|' + cell, e0, opname, 'the session is not invalidated but finalize returns a removal cookie')
+                    elif not env['inv'] and (env['rc'] == 'Y' or e0['had']) and ret != 'some:cookie:response':
+                        report('cookie', 'no-session-cookie|' + cell, e0, opname,
+                               'the session is alive (%s) but finalize returns %s: the next request cannot find its state' % (
+                                   'a record exists under its id' if env['rc'] == 'Y' else 'the client already holds its cookie', ret))
                     continue
                 s1 = _state(env)
                 if s1 not in seen:
@@ -626,16 +679,21 @@ def r5_typestate(ctx):
         b = ctx.need('C11.R5', 'body of Session::' + n, sem0.exec_body(M + 'Session::' + n))
         if b is not None:
             ops.append((n, b))
+    client = ['insert_raw', 'remove_raw', 'clear']
+    for n in client:
+        b = ctx.need('C11.R5', 'body of ClientSessionStateMut::' + n, sem0.exec_body(M + 'ClientSessionStateMut::' + n))
+        if b is not None:
+            ops.append(('client.' + n, b))
     sync = sem0.exec_body(M + 'Session::sync')
-    if sync is None or len(ops) != len(names):
+    fin = ctx.need('C11.R5', 'body of Session::finalize', sem0.exec_body(M + 'Session::finalize'))
+    if sync is None or fin is None or len(ops) != len(names) + len(client):
         return
-    # the client-side mutators only matter through ClientState::Updated: modelled by starting states with cu in {F, T}
-    res = explore(ctx, ops, ('finalize', sync))
+    res = explore(ctx, ops, ('finalize', fin))
     ctx.count('typestate_states', res['n_states'])
     ctx.count('typestate_operation_runs', res['n_runs'])
     ctx.count('typestate_paths', res['n_paths'])
     ctx.count('typestate_store_calls_interpreted', res['n_store_calls'])
-    ctx.floor('C11.R5', 'abstract session states reached', res['n_states'], 40)
+    ctx.floor('C11.R5', 'abstract session states reached', res['n_states'], 200)
     ctx.floor('C11.R5', 'store calls interpreted', res['n_store_calls'], 100)
     ctx.ob('C11.R5', 'interpreter-understood-everything', not res['unknown'], sync.loc(),
            'constructs the abstract interpreter could not model: %s' % (res['unknown'][:6] or 'none'))
